@@ -8,7 +8,9 @@ package mcpx
 import (
 	"encoding/json"
 	"fmt"
+	"strings"
 
+	internaljson "github.com/modelcontextprotocol/go-sdk/internal/json"
 	"github.com/modelcontextprotocol/go-sdk/internal/verifharness/vh"
 	"github.com/modelcontextprotocol/go-sdk/mcp"
 )
@@ -131,4 +133,130 @@ func c19HostileValues(c *vh.Case) {
 		c.Count("hostile_values_decoded", 1)
 	}
 	c.Nontrivial(fmt.Sprintf("hv:%s:%d:%s", b.name, pos, last))
+}
+
+// ---- case variants of member names inside protocol values ------------------------------------------------------
+
+var c19FreeForm = map[string]bool{"_meta": true, "structuredContent": true, "arguments": true, "input": true, "inputSchema": true, "outputSchema": true,
+	"requestedSchema": true, "data": true, "experimental": true}
+
+// c19KeyPaths lists the paths of all object members whose names the protocol defines (nothing below free-form members).
+func c19KeyPaths(v any, path []any, base string, out *[][]any) {
+	switch t := v.(type) {
+	case map[string]any:
+		keys := make([]string, 0, len(t))
+		for k := range t {
+			keys = append(keys, k)
+		}
+		sortStrings(keys)
+		for _, k := range keys {
+			p := append(append([]any{}, path...), k)
+			*out = append(*out, p)
+			if c19FreeForm[k] || (base == "ElicitResult" && k == "content") || (k == "content" && len(path) > 0 && path[len(path)-1] == "a" && base == "CallToolParamsRaw") {
+				continue
+			}
+			if len(path) >= 1 && (path[len(path)-1] == "inputRequests" || path[len(path)-1] == "inputResponses") {
+				// the keys of these maps are request names chosen by the server, their values are protocol values
+				*out = (*out)[:len(*out)-1]
+			}
+			c19KeyPaths(t[k], p, base, out)
+		}
+	case []any:
+		for i, x := range t {
+			c19KeyPaths(x, append(append([]any{}, path...), i), base, out)
+		}
+	}
+}
+
+// c19Rekey returns a copy of v in which the member at path is renamed by f ("" removes it).
+func c19Rekey(v any, path []any, f func(string) string) any {
+	if len(path) == 0 {
+		return v
+	}
+	switch t := v.(type) {
+	case map[string]any:
+		out := map[string]any{}
+		for k, x := range t {
+			if k != path[0] {
+				out[k] = x
+				continue
+			}
+			if len(path) == 1 {
+				if nk := f(k); nk != "" {
+					out[nk] = x
+				}
+			} else {
+				out[k] = c19Rekey(x, path[1:], f)
+			}
+		}
+		return out
+	case []any:
+		out := make([]any, len(t))
+		for i, x := range t {
+			if i == path[0] {
+				out[i] = c19Rekey(x, path[1:], f)
+			} else {
+				out[i] = x
+			}
+		}
+		return out
+	}
+	return v
+}
+
+// c19CaseValues: a member whose name differs from the protocol's only in letter case is a different member.
+// Decoding the document with the renamed member must not give what the original gives, unless the member does
+// not matter at all (removing it gives the same).
+func c19CaseValues(c *vh.Case) {
+	r := c.R
+	b := c19HostileBases[(c.Index/16)%len(c19HostileBases)]
+	var tree any
+	json.Unmarshal([]byte(b.base), &tree)
+	var paths [][]any
+	c19KeyPaths(tree, nil, b.name, &paths)
+	if len(paths) == 0 {
+		return
+	}
+	enc := func(doc any) (string, bool) {
+		in, _ := json.Marshal(doc)
+		dst := b.mk()
+		if err := internaljson.Unmarshal(in, dst); err != nil { // the decoder the SDK itself uses for params and results
+			return "error: " + err.Error(), false
+		}
+		out, err := json.Marshal(dst)
+		if err != nil {
+			return "unencodable", false
+		}
+		return string(out), true
+	}
+	orig, ok := enc(tree)
+	if !ok {
+		c.SetSpec(map[string]any{"gen": "case-value", "type": b.name, "in": b.base})
+		c.Violate("valid-value-rejected", "a well-formed %s document (every member of the shape the protocol defines; optional params omitted where the method has none) is not decoded: %s\n%s", b.name, orig, b.base)
+		return
+	}
+	checked := 0
+	for k := 0; k < 6; k++ {
+		p := paths[r.Intn(len(paths))]
+		variant := []func(string) string{
+			strings.ToUpper,
+			func(s string) string { return strings.ToUpper(s[:1]) + s[1:] },
+			func(s string) string { return s[:len(s)-1] + strings.ToUpper(s[len(s)-1:]) },
+		}[r.Intn(3)]
+		name := p[len(p)-1].(string)
+		if variant(name) == name {
+			continue
+		}
+		renamed, _ := enc(c19Rekey(tree, p, variant))
+		removed, _ := enc(c19Rekey(tree, p, func(string) string { return "" }))
+		checked++
+		if renamed == orig && removed != orig {
+			c.SetSpec(map[string]any{"gen": "case-value", "type": b.name, "path": fmt.Sprint(p), "variant": variant(name)})
+			c.Violate("case-insensitive-decoding", "%s: the member at %v renamed to %q is still taken for %q (decoding gives the same value as the original document, and a different one when the member is removed)", b.name, p, variant(name), name)
+			return
+		}
+	}
+	c.Count("case_variants_checked", checked)
+	c.SetSpec(map[string]any{"gen": "case-value", "type": b.name})
+	c.Nontrivial(fmt.Sprintf("cv:%s:%d", b.name, c.Index))
 }
